@@ -35,6 +35,7 @@ class G:
 
     def cons(self, n, topo, lo=1, hi=4):
         r = self.r
+        if getattr(self, "thin", False): hi = min(hi, 2)
         if n > 0 and r.random() < 0.18:
             return self.thin_cons(n, topo)
         k = r.randint(lo, hi)
@@ -70,6 +71,7 @@ class G:
         return "%s %d %s" % (kind, d, " ".join(map(str, v))) if n else "%s %d" % (kind, d)
 
     def gens(self, n, topo, lo=1, hi=4):
+        if getattr(self, "thin", False): hi = min(hi, 2)
         k = self.r.randint(lo, hi)
         gs = [self.gen(n, topo, "p")] + [self.gen(n, topo) for _ in range(k - 1)]
         self.r.shuffle(gs)
@@ -132,6 +134,18 @@ class G:
         how = r.random()
         if getattr(self, "divs", None) and n > 0 and r.random() < 0.7:
             how = 0.7   # build from generators (points with non-unit divisors)
+        if n > 0 and not getattr(self, "divs", None) and r.random() < 0.06:
+            # conversion from a rational box (small rationals: equal numerators with different denominators,
+            # coinciding and crossing ends, open and closed ends, infinite ends)
+            iv = []
+            for _ in range(n):
+                lk = r.choice(["-inf", "[", "[", "("]); uk = r.choice(["+inf", "]", "]", ")"])
+                ln, un = r.randint(-3, 3), r.randint(-3, 3); ld, ud = r.choice([1, 2, 3, 4]), r.choice([1, 2, 3, 4])
+                if r.random() < 0.7 and ln * ud > un * ld: ln, ld, un, ud = un, ud, ln, ld      # mostly non-empty
+                if r.random() < 0.2: un = ln                                                   # equal numerators
+                iv.append("%s %d %d %s %d %d" % (lk, ln, ld, uk, un, ud))
+            dims[oid] = n; topos[oid] = topo
+            return "new %d %s %d box %s" % (oid, topo, n, " ".join(iv))
         if how < 0.08: s = "new %d %s %d universe" % (oid, topo, n)
         elif how < 0.14: s = "new %d %s %d empty" % (oid, topo, n)
         elif how < 0.60: s = "new %d %s %d cons %s" % (oid, topo, n, self.cons(n, topo))
@@ -229,7 +243,7 @@ class G:
             k = 0 if r.random() < 0.3 else r.randint(0, n); dims[x] = k
             return "%s %d" % (p, k)
         if op == "map_space_dimensions":
-            keep = [i for i in range(n) if r.random() < 0.75]
+            keep = [i for i in range(n) if r.random() < (0.75 if n < 4 else 0.93)]
             tgt = list(range(len(keep))); r.shuffle(tgt)
             m = [-1] * n
             for i, j in zip(keep, tgt): m[i] = j
@@ -298,8 +312,9 @@ class G:
         return [l for x in lines for l in x.split("\n")]
 
 def make_cases(seed, count, maxdim=3, nobj=3, steps=7, ops=None, pq=0.3, pobs=0.2, start=0, special=0.0, divbias=False, partners=True,
-               special_kinds=None):
+               special_kinds=None, thin=False):
     g = G(seed, maxdim)
+    g.thin = thin
     g.special_rate = special
     g.special_kinds = special_kinds
     g.partners = partners
@@ -451,6 +466,48 @@ class Lazy(G):
             L.append("copy %d 0" % k); L.append("qry %d %s" % (k, q)); k += 1
         L.append("stall"); L.append("end")
         return L
+
+
+    def nncdiv_history(self, cid):
+        """NNC (sometimes C) polyhedra in dimension 1-2 whose points and closure points carry DIFFERENT divisors and small
+        numerators (so that products of coordinates and divisors coincide by accident), brought to a minimized state;
+        the queries that depend on matching closure points with points, on each a fresh copy, plus an equal twin"""
+        r = self.r
+        n = r.choice([1, 1, 2])
+        topo = r.choice(["NNC", "NNC", "NNC", "C"])
+        k = r.randint(2, 3)
+        gs = []
+        for j in range(k):
+            kind = "p" if (j == 0 or topo == "C") else r.choice("pcc")
+            gs.append("%s %d %s" % (kind, r.choice([1, 2, 3, 4]), " ".join(str(r.randint(-4, 4)) for _ in range(n))))
+        if r.random() < 0.15: gs.append(self.gen(n, topo, "r"))
+        r.shuffle(gs)
+        L = ["case %s" % cid, "new 0 %s %d gens %d %s" % (topo, n, len(gs), " ".join(gs))]
+        for o in r.sample(["minimized_constraints", "minimized_generators", "constraints", "generators"], r.randint(1, 3)):
+            L.append("obs 0 %s" % o)
+        L.append("twin 1 0 %s" % r.choice(["cons", "gens", "cons_nm", "gens_nm"]))
+        qs = ["is_topologically_closed", "is_empty", "is_bounded", "is_universe", "equals 1", "contains 1", "strictly_contains 1", "affine_dimension"]
+        for i in range(n):
+            for sgn in (1, -1):
+                e = "%d 0 %s" % (n, " ".join(str(sgn if j == i else 0) for j in range(n)))
+                qs += ["maximize " + e, "minimize " + e]
+        t = gs[0].split(" ")
+        qs.append("relation_with_gen p %s" % " ".join(t[1:]))
+        r.shuffle(qs)
+        k = 2
+        for q in qs[: r.randint(5, 9)]:
+            L.append("copy %d 0" % k); L.append("qry %d %s" % (k, q)); k += 1
+        L.append("qry 0 is_topologically_closed")
+        L.append("stall"); L.append("end")
+        return L
+
+
+def make_nncdiv_cases(seed, count, start=0):
+    g = Lazy(seed, 2, big=0.0)
+    out = []
+    for i in range(count):
+        out += g.nncdiv_history("D%d" % (start + i))
+    return out
 
 
 def make_touch_cases(seed, count, maxdim=3, start=0):
